@@ -686,6 +686,8 @@ class Engine:
         elif name == 'acos':
             c = self.uf('cos', z3.RealSort(), z3.RealSort())(r)
             st.assume(z3.Implies(z3.And(x >= -1, x <= 1), z3.And(c == x, r >= 0))); self.axiom_instances += 1
+            # the principal value is at most pi, stated with the smallest double above pi (3.14159265358979356...; spec literals are doubles)
+            st.assume(z3.Implies(z3.And(x >= -1, x <= 1), r <= z3.RealVal(str(fractions.Fraction(float('3.1415926535897936')))))); self.axiom_instances += 1
         return r
 
     def e_call(self, e, st):
